@@ -71,6 +71,11 @@ pub fn gen(rng: &mut Rng, tier: Tier, out: &mut Vec<String>) {
     for _ in 0..(if q { 20 } else { 200 }) {
         out.push(format!("seq {} {}", h64(rng.u64().max(1)), 1 + rng.below(64)));
     }
+    out.push("default".to_string());
+    for _ in 0..(if q { 200 } else { 5000 }) {
+        let a = rng.range(-1000, 1000);
+        out.push(format!("samples {} {} {} {}", h64(rng.u64().max(1)), 1 + rng.below(12), a, a + 1 + rng.range(0, 5000)));
+    }
     // integers
     let n_int = if q { 3000 } else { 100_000 };
     for i in 0..n_int {
@@ -341,6 +346,23 @@ pub fn run(t: &[&str]) -> String {
             let r = g.next_bits();
             assert_eq!(r, g.0);
             h64(r)
+        }
+        // the iterator API: `samples()` yields exactly what successive `sample()` calls yield
+        "samples" => {
+            let mut g = st(t[1]);
+            let n: usize = t[2].parse().unwrap();
+            let d = Uniform(pint(t[3]) as i32..pint(t[4]) as i32);
+            let v: Vec<i32> = d.samples(&mut g).take(n).collect();
+            let mut g2 = st(t[1]);
+            let seq: Vec<i32> = (0..n).map(|_| d.sample(&mut g2)).collect();
+            let vs: Vec<String> = v.iter().map(|x| x.to_string()).collect();
+            format!("{} {} seq={}", vs.join(" "), h64(g.0), (seq == v && g2.0 == g.0) as u8)
+        }
+        // `Xorshift64::default()` is `from_seed(DEFAULT_SEED)`
+        "default" => {
+            let g = Xorshift64::default();
+            let h = Xorshift64::from_seed(Xorshift64::DEFAULT_SEED);
+            format!("{} {}", h64(g.0), (g.0 == h.0) as u8)
         }
         "seq" => {
             let seed = pu64h(t[1]);
